@@ -19,6 +19,8 @@ from typing import Any, Callable, Dict, Iterable, List, Optional, Sequence, Tupl
 VERIF = os.path.dirname(os.path.dirname(os.path.abspath(__file__)))
 REPO = os.environ.get("VERIF_REPO", "/repo")
 KNOWN_FILE = os.path.join(VERIF, "KNOWN_FINDINGS.txt")
+# evidence and violation replays go to VERIF unless redirected (mutant runs, experiments)
+OUT = os.environ.get("VERIF_OUT") or VERIF
 
 
 class HarnessError(Exception):
@@ -287,7 +289,7 @@ class Recorder:
 
     # -- output --------------------------------------------------------------------
     def write_replay(self, v: Dict[str, Any]) -> str:
-        d = os.path.join(VERIF, "replays", self.pid)
+        d = os.path.join(OUT, "replays", self.pid)
         os.makedirs(d, exist_ok=True)
         body = {
             "property": self.pid,
@@ -315,7 +317,7 @@ class Recorder:
         return 1 if self.violations else 0
 
     def write_evidence(self) -> None:
-        d = os.path.join(VERIF, "evidence")
+        d = os.path.join(OUT, "evidence")
         os.makedirs(d, exist_ok=True)
         rule = " || ".join(f"[{k}] {v}" for k, v in self.rules.items())
         cov: Dict[str, Any] = {
